@@ -87,7 +87,8 @@ var nfTerms = []any{
 	some(hx.C("nf_const", bytesOf("x"))), some(hx.C("nf_prefix", bytesOf("p."))), some(hx.C("nf_prefix", bytesOf("q"))),
 }
 
-var behs = []string{"BOk", "BErr", "BPanic", "BOkPanic", "BNever", "BTwice", "BOkBad"}
+var behs = []string{"BOk", "BErr", "BPanic", "BOkPanic", "BNever", "BTwice", "BOkBad", "BDefer", "BOkDefer", "BDeferPanic"}
+var fkinds = []string{"FOk", "FErr", "FBad"}
 
 func mkReg(k int64, zid int, group string, nfTerm any) (hx.T, regd) {
 	nf := nfOfTerm(nfTerm)
@@ -455,6 +456,11 @@ func genRandom(cfg *hx.Config, idx int) ([]hx.T, []string) {
 			}
 			continue
 		}
+		if r.Intn(8) == 0 {
+			ops = append(ops, hx.C("OFire", int64(r.Intn(5)-1), hx.Pick(r, fkinds)))
+			tags["fire"] = true
+			continue
+		}
 		rt, rtag := route()
 		tags[rtag] = true
 		t := target(built, rt)
@@ -732,6 +738,11 @@ func genDispatch(cfg *hx.Config) ([]hx.T, []string) {
 		}
 	}
 	for i, n := 0, 3+r.Intn(8); i < n; i++ {
+		if r.Intn(7) == 0 {
+			ops = append(ops, hx.C("OFire", int64(r.Intn(5)-1), hx.Pick(r, fkinds)))
+			tags["fire"] = true
+			continue
+		}
 		var ks []int64
 		for j, m := 0, r.Intn(4); j < m; j++ {
 			ks = append(ks, r.Int63n(ncol))
@@ -1078,6 +1089,97 @@ func enumerateRejections(thorough bool, emit func(string, []hx.T, []string)) {
 						}
 					}
 					emit("rejection", ops, []string{"rejected:" + why[bad], fmt.Sprintf("rejection:mode-%d", mode), "rejection:order-" + strings.Join(order, ",")})
+				}
+			}
+		}
+	}
+}
+
+// ---- deferred completions overlapping later calls ----
+// handlers keep the completion function (BDefer / BOkDefer / BDeferPanic); further calls and
+// requests go through the same collection / the same dispatcher; the kept functions are then run
+// in every order, repeatedly, with a result / an error / an unserialisable result
+
+func perms(n int) [][]int {
+	if n == 1 {
+		return [][]int{{0}}
+	}
+	var out [][]int
+	for _, p := range perms(n - 1) {
+		for i := 0; i <= len(p); i++ {
+			q := append(append(append([]int{}, p[:i]...), n-1), p[i:]...)
+			out = append(out, q)
+		}
+	}
+	return out
+}
+
+func enumerateOverlap(thorough bool, emit func(string, []hx.T, []string)) {
+	deferBehs := []string{"BDefer", "BOkDefer", "BDeferPanic"}
+	k := int64(0)
+	opA, rdA := mkReg(k, 0, "g", "None")            // Z01: g.Join (MsgA, request)
+	opB, rdB := mkReg(k, 1, "h", "None")            // Z02: h.Join (MsgB), h.Push (TestHello)
+	opR, rdR := mkReg(1, remoteZoo[0], "g", "None") // R01 behind a dispatcher: g.Join, g.Ret
+	opS, rdS := mkReg(2, remoteZoo[1], "s", "None") // R02 in another collection of the same dispatcher
+	built := []regd{rdA, rdB}
+	builtD := map[int64][]regd{1: {rdR}, 2: {rdS}}
+	pre := []hx.T{opA, opB, hx.C("OBuild", k), opR, opS, hx.C("OBuild", int64(1)), hx.C("OBuild", int64(2))}
+	directRoutes := []struct {
+		rt string
+		id int64
+	}{{"g.Join", 10}, {"h.Join", 11}, {"h.Push", 12}}
+	dispRoutes := []string{"g.Join", "g.Ret", "s.Only2"}
+	ks := []int64{1, 2}
+	direct := func(i int, beh string) hx.T {
+		d := directRoutes[i%len(directRoutes)]
+		return callSer(k, built, "SJson", d.rt, goodPayload("SJson", d.id, int64(i+1)), "CNil", true, beh, false)
+	}
+	disp := func(i int, rid int64, beh string) hx.T {
+		return dispatch(builtD, ks, rid, dispRoutes[i%len(dispRoutes)], helloBody(int64(i+1)), beh, false)
+	}
+	fire := func(n int, kd string) hx.T { return hx.C("OFire", int64(n), kd) }
+	for path := 0; path < 3; path++ { // 0 direct, 1 dispatch, 2 mixed
+		mk := func(i int, beh string) hx.T {
+			if path == 0 || (path == 2 && i%2 == 0) {
+				return direct(i, beh)
+			}
+			return disp(i, int64(11+i), beh)
+		}
+		for m := 2; m <= 3; m++ {
+			var combos [][]string
+			if m == 2 {
+				for _, a := range deferBehs {
+					for _, b := range deferBehs {
+						combos = append(combos, []string{a, b})
+					}
+				}
+			} else {
+				combos = [][]string{{"BDefer", "BDefer", "BDefer"}, {"BDefer", "BOkDefer", "BDefer"}}
+			}
+			for ci, combo := range combos {
+				for pi, perm := range perms(m) {
+					if !thorough && (ci+pi+path)%2 == 1 {
+						continue
+					}
+					ops := append([]hx.T{}, pre...)
+					for i, beh := range combo {
+						ops = append(ops, mk(i, beh))
+						if i == 0 {
+							ops = append(ops, mk(5, "BOk")) // a complete call in between
+						}
+					}
+					ops = append(ops, disp(4, 0, "BOk")) // and a notification
+					for j, n := range perm {
+						ops = append(ops, fire(n, fkinds[(ci+pi+j)%3]))
+						if j == 0 {
+							ops = append(ops, mk(6, "BErr"), mk(7, "BDefer")) // more traffic, one more kept function
+						}
+					}
+					for j, n := range perm { // everything again, other kinds
+						ops = append(ops, fire(n, fkinds[(ci+pi+j+1)%3]))
+					}
+					ops = append(ops, fire(m, "FOk"), fire(m, "FErr"), fire(m+1, "FOk"), fire(-1, "FOk"))
+					emit("overlap", ops, []string{fmt.Sprintf("overlap:path-%d", path), fmt.Sprintf("overlap:kept-%d", m)})
 				}
 			}
 		}
